@@ -38,7 +38,7 @@ def fixture(spec):
     spec = tuple(spec)
     if spec not in _fix:
         if spec[0] == 'gen':
-            _fix[spec] = make_generated(spec[1], spec[2] if len(spec) > 2 else 'tree')
+            _fix[spec] = make_generated(spec[1], spec[2] if len(spec) > 2 else 'tree', dupsig=len(spec) > 3 and spec[3] == 'dupsig')
             if len(spec) > 3 and spec[3] == 'badver':
                 _fix[spec] = make_badver(_fix[spec])
         else:
@@ -49,7 +49,7 @@ def fixture(spec):
     return _fix[spec]
 
 
-def make_generated(seed, kind):
+def make_generated(seed, kind, dupsig=False):
     from vf.checks import c04, c05, c06
     ch = RndChooser(770000 + seed)
     le = bool(seed % 2)
@@ -65,6 +65,9 @@ def make_generated(seed, kind):
         if info is None:
             info = cand
         info['le'] = le
+        if dupsig and len(info.get('tunits') or []) >= 2:
+            # two type units with the same signature (tolerated input: readelf dumps such files, debuggers complain and go on)
+            info['tunits'][-1]['sig'] = info['tunits'][0]['sig']
         payload = dict(D.InfoWriter(info).sections)
     else:
         line = c05.build_case(ch, 'quick')
@@ -686,7 +689,7 @@ def corpus_fixtures():
 
 
 def strategy(tier):
-    fixtures = ([['gen', i, 'tree'] for i in range(1, 9)] + [['gen', i, 'lines'] for i in range(1, 5)] + [['gen', i, 'tree', 'badver'] for i in (1, 5, 7)] +
+    fixtures = ([['gen', i, 'tree'] for i in range(1, 9)] + [['gen', i, 'lines'] for i in range(1, 5)] + [['gen', i, 'tree', 'badver'] for i in (1, 5, 7)] + [['gen', i, 'tree', 'dupsig'] for i in (1, 2, 8)] +
                 [['corpus', f] for f in corpus_fixtures()])
     query = st.builds(lambda k, x: [k, x], st.sampled_from(QUERY_OPS), st.integers(0, 500))
     repos = st.builds(lambda s, p: ['repos', s, p], st.integers(0, 7), st.integers(0, 100000))
@@ -700,7 +703,7 @@ def strategy(tier):
 def sweep(tier):
     """deterministic long histories: every query op once in forward and once in reverse order, with a reposition between any two"""
     cases = []
-    fixtures = [['gen', i, 'tree'] for i in range(1, 5)] + [['gen', 1, 'lines'], ['gen', 1, 'tree', 'badver'], ['gen', 2, 'tree', 'badver']] + [['corpus', f] for f in corpus_fixtures()]
+    fixtures = [['gen', i, 'tree'] for i in range(1, 5)] + [['gen', 1, 'lines'], ['gen', 1, 'tree', 'badver'], ['gen', 2, 'tree', 'badver'], ['gen', 1, 'tree', 'dupsig'], ['gen', 8, 'tree', 'dupsig']] + [['corpus', f] for f in corpus_fixtures()]
     for f in fixtures:
         for order in (1, -1):
             ops = []
@@ -729,7 +732,7 @@ def floors(ctx):
     if c['exhaustive.states'] < 50:
         out.append('exhaustive exploration reached only %d abstract states' % c['exhaustive.states'])
     out += ['suspended generator kind never advanced: ' + k for k in GEN_KINDS if c['gen.' + k] == 0]
-    for k in ('fixture.gen', 'fixture.corpus', 'fixture.badver'):
+    for k in ('fixture.gen', 'fixture.corpus', 'fixture.badver', 'fixture.dupsig'):
         if c[k] == 0:
             out.append('no history on ' + k)
     return out
